@@ -362,3 +362,11 @@ Definition description_out (cols : list ty) (ts : list target) : out :=
   | None => OL []
   | Some d => OL [OL (map (fun nt => OL [o_str (fst nt); ON (ty_code (snd nt))]) d)]
   end.
+
+(* result_indexes = [index for index, c_target in enumerate(c_targets) if c_target.name] *)
+Fixpoint vis_from (k : nat) (ts : list target) : list nat :=
+  match ts with
+  | [] => []
+  | (_, Some _) :: t => k :: vis_from (S k) t
+  | (_, None) :: t => vis_from (S k) t
+  end.
